@@ -27,6 +27,9 @@ Sessions
                                    if the transport no longer accepts data
          .peer_frame_bytes(kind, code) -> bytes
          .drop() / .eof()          connection lost abruptly / peer FIN
+         .local_close()            our side tears the connection down without the WebSocket object (client:
+                                   ResponseHandler.close(), what session/connector close() do; server: transport.close())
+         .pause_writing() / .resume_writing()     write back-pressure from the transport
          .teardown()
 
 BLoop(loop)   iteration-accurate stepping of a StepLoop (the "|" marker of spec/WsSession.tla)
@@ -182,6 +185,8 @@ class BLoop:
         name = getattr(cb, "__name__", "") or type(cb).__name__
         if name == "_io_deliver":
             return "io:" + str(h._args[0])
+        if name == "_io_resume":
+            return "resume"
         if name in ("_call_connection_lost",):
             return "lost"
         if name == "_on_timeout":
@@ -323,6 +328,20 @@ class _Session:
         assert self.tr is not None
         self.tr.feed_eof()
 
+    def local_close(self) -> None:
+        """The connection is torn down from OUR side by somebody else than the WebSocket object."""
+        assert self.tr is not None
+        self.tr.close()
+
+    def pause_writing(self) -> None:
+        assert self.tr is not None
+        if not self.tr.closing:
+            self.tr.pause_protocol_writing()
+
+    def resume_writing(self) -> None:
+        assert self.tr is not None
+        self.tr.resume_protocol_writing()
+
 
 class ServerSession(_Session):
     side = "server"
@@ -417,6 +436,9 @@ class ClientSession_(_Session):
         self.conn = c
         self._hook(c.tr, 0)
         c.tr.written.clear()
+
+    def local_close(self) -> None:
+        self.conn.proto.close()
 
     def teardown(self) -> None:
         assert self.tr is not None
